@@ -972,3 +972,55 @@ def reaching_defs(fi, name, use_astnode):
         if use.idx in r:
             out.append(b)
     return out
+
+
+# ------------------------------------------------------------------------------------------------- mutations through local aliases
+INPLACE_SET_METHODS = {"add", "remove", "discard", "update", "clear", "pop", "difference_update", "intersection_update",
+                       "symmetric_difference_update", "append", "extend", "insert", "sort", "reverse", "setdefault", "popitem", "fill"}
+
+
+def attribute_alias_mutations(fi, attrs, selfname=None):
+    """[(attr, node, how)] for in-place modifications of the object held in `self.<attr>` (attr in attrs) made through a local alias:
+    a local that some assignment of the function binds to exactly `self.<attr>` and that is then the target of an augmented
+    assignment (`L |= x` updates a set / list / array in place), the receiver of a mutating method, or the root of an element store /
+    deletion.  Conservative in the direction of reporting: any binding of the local to the attribute counts (no flow sensitivity)."""
+    sn = selfname or fi.self_name
+    alias = {}
+    for n in walk_local(fi.node):
+        if isinstance(n, ast.Assign) and len(n.targets) == 1 and isinstance(n.targets[0], ast.Name):
+            a = self_attr(n.value, sn) if isinstance(n.value, ast.Attribute) else None
+            if a is not None and a in attrs:
+                alias.setdefault(n.targets[0].id, set()).add(a)
+    out = []
+    if not alias:
+        return out
+    for n in walk_local(fi.node):
+        if isinstance(n, ast.AugAssign):
+            r = n.target
+            elem = False
+            while isinstance(r, ast.Subscript):
+                r, elem = r.value, True
+            if isinstance(r, ast.Name) and r.id in alias:
+                for a in sorted(alias[r.id]):
+                    out.append((a, n, "`%s` updates the object of self.%s in place through the local `%s`" % (src_(n), a, r.id)))
+        elif isinstance(n, (ast.Assign, ast.Delete)):
+            for t in n.targets:
+                r = t
+                elem = False
+                while isinstance(r, ast.Subscript):
+                    r, elem = r.value, True
+                if elem and isinstance(r, ast.Name) and r.id in alias:
+                    for a in sorted(alias[r.id]):
+                        out.append((a, n, "`%s` changes an element of self.%s through the local `%s`" % (src_(n), a, r.id)))
+        elif isinstance(n, ast.Call) and isinstance(n.func, ast.Attribute) and n.func.attr in INPLACE_SET_METHODS \
+                and isinstance(n.func.value, ast.Name) and n.func.value.id in alias:
+            for a in sorted(alias[n.func.value.id]):
+                out.append((a, n, "`%s` mutates the object of self.%s through the local `%s`" % (src_(n), a, n.func.value.id)))
+    return out
+
+
+def src_(node):
+    try:
+        return ast.unparse(node)[:100]
+    except Exception:          # noqa: BLE001
+        return "<?>"
